@@ -160,6 +160,10 @@ def add_occupancy(rnd, spec, info, force=None, ei=0):
                 tags.append("occ-beneath-shape")
             leader = rnd.choice(holders[r])
             vary = rnd.random() < 0.5
+            if r in s.decl[out] and rnd.random() < 0.06:
+                # the OUTPUT holds the rank too and is named as leader (KF-17)
+                leader, vary = out, False
+                tags.append("occ-output-is-leader")
             for i in range(nocc):
                 if vary and i > 0:
                     l2 = rnd.choice(holders[r])
